@@ -55,7 +55,11 @@ SrvReqClauses ==
   << <<"C16.InnerServiceReached", Is(s.innerReq) /\ Is(s.innerBody)>>,
      <<"C16.InnerSeesGrpcContentType", Is(s.innerReq) => (Values(s.innerReq.list, "content-type") = <<CT_grpc>> /\ Values(s.innerReq.list, "te") = <<S_trailers>>)>>,
      <<"C16.RequestBytesIdentical", (Is(s.innerBody) /\ st.wellformed) => (s.innerBody.bytes = st.payload /\ s.innerBody.err = "")>>,
-     <<"C16.MalformedTextIsAnError", (Is(s.innerBody) /\ ~st.wellformed) => s.innerBody.err # "">> >>
+     <<"C16.MalformedTextIsAnError", (Is(s.innerBody) /\ ~st.wellformed) => s.innerBody.err # "">>,
+     \* st.gae (optional): the grpc-accept-encoding the web caller sent (a byte string) or "none".  The bridge hands the caller's own offer
+     \* to the gRPC service - it neither invents one nor replaces it - so that the service compresses only with what the caller accepts
+     <<"C05.BridgeKeepsTheCallersOffer", ("gae" \in DOMAIN st /\ Is(s.innerReq)) =>
+            Values(s.innerReq.list, "grpc-accept-encoding") = (IF st.gae = "none" THEN <<>> ELSE <<st.gae_bytes>>)>> >>
 TableClauses ==
   LET st == s.stim
       web == st.ctype \in WebTypes
